@@ -143,7 +143,8 @@ def run_case(case, emit):
         if name == "SemanticError":
             emit({"v": "skip", "why": f"generator_rejected {code}"})
             return
-        emit({"v": "viol", "b": bucket, "mech": f"{tree[0]}/{arity}/raises:{name}:{code}", "what": f"{script} raised {name}: {str(res)[:200]}", "case": case})
+        rep = "/same-subexpression-twice" if _has_twin(tree) else ""
+        emit({"v": "viol", "b": bucket, "mech": f"{tree[0]}/{arity}/raises:{name}:{code}{rep}", "what": f"{script} raised {name}: {str(res)[:200]}", "case": case})
         return
     ds = res["DS_r"]
     if sorted(ds.components) != sorted(names):
